@@ -205,7 +205,7 @@ def replay(ctx, case):
 MANIFEST = dict(
     text=("Proof: (i) McxVchainDirty, general branch, exact mode, one target, k>=4 controls, EVERY control pattern: the Gallina model denotes, for "
           "every state of controls, ancillas and target, 'flip target iff the controls match' - ancillas restored whatever they hold "
-          "(C05_vchain_exact, C05_vchain_pattern, and C05_vchain_placed for any pairwise-distinct placement); relative-phase mode = that permutation "
+          "(C05_vchain_exact, C05_vchain_pattern, and C05_vchain_placed for any pairwise-distinct placement); with any number of targets all of them flip iff the controls are all 1 (C05_vchain_multi_target); relative-phase mode = that permutation "
           "times a +-1 diagonal (C05_vchain_relphase); (ii) LinearMcx with k>=6 controls and every control pattern: the model's four alternating "
           "V-chains on their exact qubit lists are the exact MCX, borrowed ancilla restored for every input state (C05_linear_mcx, via Lemma 9 "
           "C05_lemma9); (iii) majority: the degree list is translated from qclib/gates/majority.py on every run and proved, for all n and all inputs, "
